@@ -30,7 +30,8 @@ OBLIGATIONS = {"poly:star": 20, "poly:selfintersecting": 20, "poly:lattice": 20,
                "poly:repeated-vertex": 5, "pt:inside": 500, "pt:outside-in-bbox": 300,
                "pt:outside-bbox": 100, "pt:level-with-vertex": 200, "meta": 100,
                "cells_inside_polygon": 10, "inside-buffer": 50, "options": 50,
-               "poly:far-from-origin": 20, "poly:far-open>3": 10}
+               "poly:far-from-origin": 20, "poly:far-open>3": 10,
+               "cells:grid-moved-after-use": 20}
 
 
 def P():
@@ -234,6 +235,18 @@ def run_cells_case(ctx, case):
     ctx.evaluated()
     ctx.tag("cells_inside_polygon")
     gr = Grid("g", nc, nr, cellsize=csz, xllcorner=xll, yllcorner=yll)
+    if int(poly.sum() * 4 + nr) % 3 == 0:
+        # a grid (or its clone) that already answered for another position and cell
+        # size, then moved onto the target geometry by assigning its attributes
+        ctx.tag("cells:grid-moved-after-use")
+        gr = Grid("g", nc, nr, cellsize=csz * 2.0, xllcorner=xll - 3.5 * csz,
+                  yllcorner=yll + 2.25 * csz)
+        gr.cells_inside_polygon(poly.copy())
+        if int(poly.sum()) % 2:
+            gr = gr.clone()
+        gr.xllcorner = xll
+        gr.yllcorner = yll
+        gr.cellsize = csz
     ctx.api("cells_inside_polygon")
     df = gr.cells_inside_polygon(poly.copy())
     cells = set(int(c) for c in df["cell"].values)
